@@ -79,7 +79,7 @@ async def run_ops(be, ops, contents, names, chunk=16, fake=None):
             if k == 'upload':
                 await maybe(be.upload, op['n'], contents[op['c']])
             elif k == 'upload_stream':
-                await maybe(be.upload_stream, op['n'], io.BytesIO(contents[op['c']]), len(contents[op['c']]), chunk)
+                await maybe(be.upload_stream, op['n'], io.BytesIO(contents[op['c']]), len(contents[op['c']]), *([chunk] if chunk else []))
             elif k == 'delete':
                 await maybe(be.delete, op['n'])
             elif k == 'exists':
@@ -89,7 +89,7 @@ async def run_ops(be, ops, contents, names, chunk=16, fake=None):
                 e['v'] = next((i for i, b in contents.items() if b == d), -1)
             elif k == 'download_stream':
                 s = io.BytesIO()
-                await maybe(be.download_stream, op['n'], s, chunk)
+                await maybe(be.download_stream, op['n'], s, *([chunk] if chunk else []))
                 e['v'] = next((i for i, b in contents.items() if b == s.getvalue()), -1)
             elif k == 'list':
                 got = await listing(be, op['prefix'])
@@ -123,7 +123,7 @@ def random_ops(rng, names, prefixes, ncontents, n):
 
 
 def contents_pool(rng, chunk=16):
-    sizes = [0, 1, chunk - 1, chunk, chunk + 1, 3 * chunk, 3 * chunk + 5, 200]
+    sizes = [0, 1, chunk - 1, chunk, chunk + 1, 3 * chunk, 3 * chunk + 5, 200] if chunk < 1000 else [0, chunk - 1, chunk, chunk + 1, 2 * chunk + 17]
     return {i + 1: bytes([i + 1]) + rng.randbytes(max(s - 1, 0)) if s else b'' for i, s in enumerate(sizes)}
 
 
@@ -223,12 +223,13 @@ def classify(kind, t, e, names):
     return 'any'
 
 
-def one_history(run, kind, seed, nobj, nops, quick, ops_override=None, names_override=None):
+def one_history(run, kind, seed, nobj, nops, quick, ops_override=None, names_override=None, default_chunk=False):
     rng = random.Random(seed)
     allow = (lambda s: True)
     names = names_override or gen_names(rng, nobj, allow)
     prefixes = prefixes_of(names, rng, 6)
-    contents = contents_pool(rng)
+    # default_chunk: the adapters' own default stream chunk size (128 000 bytes) and objects around / above it
+    contents = contents_pool(rng, 128_000) if default_chunk else contents_pool(rng)
     ops = ops_override or random_ops(rng, names, prefixes, len(contents), nops)
     with harness.scratch() as d, vclock.virtual():
         old = None
@@ -247,7 +248,7 @@ def one_history(run, kind, seed, nobj, nops, quick, ops_override=None, names_ove
             be = fakeb2.client(fake)
         try:
             async def go():
-                evs = await run_ops(be, ops, contents, names, fake=fake)
+                evs = await run_ops(be, ops, contents, names, fake=fake, chunk=None if default_chunk else 16)
                 r = be.close()
                 if inspect.isawaitable(r):
                     await r
@@ -295,6 +296,9 @@ def main(run):
         for rep in range(3 if quick else 12):
             seed = run.seed * 1000 + i * 10 + rep
             traces.append(one_history(run, kind, seed, nobj=random.Random(seed).choice([1, 4, 7, 9]), nops=25 if quick else 60, quick=quick))
+    # objects around and above the default stream chunk size, streamed with the adapters' own default chunk size
+    for i, kind in enumerate(['local:abs', 's3:2', 'b2:2'] if quick else ['local:abs', 'local:rel', 's3:2', 's3:1000', 'b2:2', 'b2:1000']):
+        traces.append(one_history(run, kind, run.seed * 1000 + 900 + i, nobj=3, nops=10 if quick else 30, quick=quick, default_chunk=True))
     # names that end in .tmp are ordinary object names (local backend: recorded finding, exercised on every run)
     tmpnames = ['notes.tmp', 'dir/x.tmp', 'plain']
     tmpops = [{'k': 'upload', 'n': n, 'c': 2} for n in tmpnames] + [{'k': 'exists', 'n': 'notes.tmp'}, {'k': 'download', 'n': 'dir/x.tmp'},
